@@ -23,6 +23,7 @@ import (
 func init() {
 	verifRegister("verifC01NominationLemmas", verifC01NominationLemmas)
 	verifRegister("verifC01TickProgress", verifC01TickProgress)
+	verifRegister("verifC01LateResponse", verifC01LateResponse)
 }
 
 // pairOfSent: the candidate pair an emitted datagram travels on.
@@ -66,6 +67,40 @@ func verifC01NominationLemmas() {
 		}
 	} else {
 		verifReach("controlled")
+		// (T) an authenticated request on a known pair that is not yet valid —
+		// Waiting, In-Progress or already Failed by its own retries — is answered
+		// AND triggers a check on that pair (full agents): the peer's check is
+		// what lets a controlled agent validate a pair whose own budget ran out
+		if known, isKnown := s.knownRemote(); isKnown && s.class == stun.ClassRequest && !s.lite {
+			for ci := range w.conns {
+				if ci != s.localIdx {
+					continue
+				}
+				var before *verifPairSnap
+				for i := range s.before.pairs {
+					if s.before.pairs[i].p.Local == Candidate(w.locals[ci]) && s.before.pairs[i].p.Remote == known {
+						before = &s.before.pairs[i]
+					}
+				}
+				if before == nil || before.state == CandidatePairStateSucceeded {
+					continue
+				}
+				verifReach("request-on-a-not-yet-valid-pair")
+				nResp, nReq := 0, 0
+				for i := 0; i < len(w.conns[ci].sent); i++ { // nothing was sent before the step
+					if m := verifParseSent(w.conns[ci], i); m != nil {
+						if m.Type.Class == stun.ClassSuccessResponse && m.TransactionID == s.id {
+							nResp++
+						}
+						if m.Type.Class == stun.ClassRequest && w.pairOfSent(ci, i) == before.p {
+							nReq++
+						}
+					}
+				}
+				verifAssert(nResp == 1, "the-request-is-answered")
+				verifAssert(nReq == 1, "a-triggered-check-goes-out-on-every-not-yet-valid-pair(a-Failed-one-included)")
+			}
+		}
 		for _, ps := range s.before.pairs {
 			if ps.nomOnSucc { // forks on the symbolic flag
 				verifReach("deferred-nomination-armed")
@@ -176,6 +211,44 @@ func verifC01TickProgress() {
 	}
 	if !controlling {
 		verifAssert(len(useCand) == 0, "controlled-agent-never-sends-USE-CANDIDATE")
+	}
+	verifReach("done")
+}
+
+// A retransmission does not cancel the transaction it repeats: responses are
+// matched by transaction id for the whole transaction lifetime, so a response
+// that arrives after the next retransmission went out (round trip longer than
+// the check interval) still validates the pair.
+func verifC01LateResponse() {
+	controlling := verifChoice(2) == 1
+	w := verifNewWorld(controlling, false, 1, 1)
+	a := w.a
+	w.pairAll()
+	p := a.checklist[0]
+	p.state = CandidatePairState(verifInt(1, 2)) // waiting or in progress
+	nTicks := 2 + verifChoice(2)
+	for i := 0; i < nTicks; i++ {
+		a.getSelector().ContactCandidates()
+	}
+	var reqs []*stun.Message
+	for i := range w.conns[0].sent {
+		if m := verifParseSent(w.conns[0], i); m != nil && m.Type.Class == stun.ClassRequest {
+			reqs = append(reqs, m)
+		}
+	}
+	verifAssert(len(reqs) == nTicks, "one-check-per-tick")
+	if len(reqs) != nTicks {
+		return
+	}
+	verifAssert(len(a.pendingBindingRequests) == nTicks, "every-check-sent-is-an-outstanding-transaction")
+	// the response to any one of them — the first included — arrives now
+	k := verifChoice(nTicks)
+	resp, err := stun.Build(stun.BindingSuccess, stun.NewTransactionIDSetter(reqs[k].TransactionID), stun.NewShortTermIntegrity(verifRemotePwd), stun.Fingerprint)
+	verifAssert(err == nil, "build")
+	a.handleInbound(resp, w.locals[0], w.remotes[0].addrPort())
+	verifAssert(p.state == CandidatePairStateSucceeded, "a-response-to-an-earlier-retransmission-still-validates-the-pair")
+	if k == 0 {
+		verifReach("late-response")
 	}
 	verifReach("done")
 }
